@@ -30,7 +30,7 @@ func genC17(seed uint64, tier string) *Plan {
 		// a message cache without any window: HistoryGossip <= HistoryLength still holds
 		p.Knobs["history_len"], p.Knobs["history_gossip"] = 0, 0
 	}
-	p.Knobs["gossip_retx"] = float64(r.rng(1, 3))
+	p.Knobs["gossip_retx"] = float64(r.rng(0, 3)) // 0 is accepted: nothing is ever served on request
 	p.Knobs["max_ihave_len"] = float64(r.rng(2, 20))
 	p.Knobs["max_ihave_msgs"] = float64(r.rng(1, 4))
 	p.Knobs["max_idw_msgs"] = float64(r.rng(1, 4))
@@ -49,6 +49,14 @@ func genC17(seed uint64, tier string) *Plan {
 	D := r.rng(2, 4)
 	p.Knobs["D"], p.Knobs["Dlo"], p.Knobs["Dhi"], p.Knobs["Dscore"], p.Knobs["Dout"] = float64(D), 1, float64(D+6), 0, 0
 	p.Knobs["opp_ticks"] = 1 << 30
+	oppGraft := r.chance(0.2)
+	if oppGraft {
+		// opportunistic grafting every 1..3 heartbeats: a well-scored outsider is pulled into a mesh
+		// of unremarkable members in the same heartbeat that emits gossip
+		p.Knobs["opp_ticks"] = float64(r.rng(1, 3))
+		p.Knobs["oppgraft_thr"] = 5
+		p.Knobs["opp_peers"] = float64(r.rng(1, 2))
+	}
 	if r.chance(0.35) { // a slow application validator: messages can sit in validation across heartbeats
 		p.Knobs["nval_default"] = 1
 		p.Knobs["v0_inline"] = float64(r.intn(2))
@@ -96,6 +104,8 @@ func genC17(seed uint64, tier string) *Plan {
 		i := int64(r.intn(np))
 		x := r.intn(100)
 		switch {
+		case x < 3 && oppGraft:
+			add("score", i, int64(r.rng(6, 40))*1000)
 		case x < 14:
 			add("pub", i, 0, int64([]int{16, 70, 600, 2100}[r.intn(4)]))
 		case x < 22:
